@@ -86,6 +86,9 @@ func SeqProfileFor(name string, seed int64) SeqProfile {
 		p.SortFirst = r.Intn(2) == 0
 		p.PSchema = 0.1
 		p.SortAt = 8 + r.Intn(14)
+		if r.Intn(2) == 0 {
+			p.Many = 16 + r.Intn(10) // an index of some size: a selection of one or two rows is narrow beside it
+		}
 		p.PBulkDel = 0.15 // Count well below the highest offset's block when the index is created late
 		p.Prologue = []string{"", "block1", "block1", "sparse", "three"}[r.Intn(5)]
 		p.PRollback, p.PFailIns = 0.05, 0
